@@ -482,6 +482,8 @@ class NpCalls:
                 if (XYZ in removed or all_removed) and not cum and name not in ORDER_REDUCERS:
                     ng = None
                 elif name in LINEAR_REDUCERS:
+                    if g[1] in ('W', 'C'):
+                        interp.emit('wrapped_reduce', node, arg=x, fn=name)
                     ng = ('FRAC', 'N')
                 elif name in ORDER_REDUCERS:
                     ng = g
